@@ -1,0 +1,20 @@
+//go:build verif
+
+package errors
+
+// Contracts for the verification machinery in /verif (comment-only file;
+// excluded from every build without the "verif" tag).
+
+// ---- C02: the order of an error list is a function of its content ----
+// Sanitize sorts errors by position with this comparator (then by path). It is
+// token.Pos.Compare with invalid positions first instead of last; like the
+// specification order posCmp it is antisymmetric, so the sorted list depends
+// only on the multiset of errors.
+//@ spec func errPosCmp(a token.Pos, b token.Pos) int { ite(a == b, 0, ite(a.file == nil && a.offset == 0, -1, ite(b.file == nil && b.offset == 0, 1, token.posCmp(a, b)))) }
+//@ func comparePosWithNoPosFirst
+//@   strings abstract
+//@   requires (a.file != nil ==> a.file.size >= 0) && (b.file != nil ==> b.file.size >= 0)
+//@   ensures [spec] result == errPosCmp(a, b)
+//@   ensures [range] -1 <= result && result <= 1
+//@ lemma errPosCmp_antisym: forall p, q token.Pos :: errPosCmp(p, q) == 0 - errPosCmp(q, p)
+//@ lemma errPosCmp_refl: forall p token.Pos :: errPosCmp(p, p) == 0
